@@ -93,6 +93,20 @@ class SubC(Base):
         super().__init__(0, k)
 
 
+class SubK(Base):
+    """accepts extra keyword arguments (dict_kwargs)"""
+
+    def __init__(self, dim: int = 3, k: int = 2, **kwargs):
+        super().__init__(dim, k)
+        self.kwargs = kwargs
+
+
+class Holder:
+    def __init__(self, c: Optional[Base] = None, v: int = 0):
+        self.c = c
+        self.v = v
+
+
 @dataclass
 class DC:
     x: int = 1
@@ -267,7 +281,7 @@ def build_parser(spec, top=True):
         p.add_argument("--cfg", action="config")
     types = {"int": int, "str": str, "any": Any, "dict": Dict[str, int]}
     for a in spec.get("args", []):
-        k = {"type": types[a["type"]]}
+        k = {"type": types[a["type"]]} if a["type"] != "untyped" else {}
         if a.get("required"):
             k["required"] = True
         else:
@@ -283,7 +297,7 @@ def build_parser(spec, top=True):
             for f, dv in zip(fields, dflts):
                 p.add_argument("--%s.%s" % (g, f), type=int, default=dv)
     for s in spec.get("subclass", []):
-        k = {"type": m.Base}
+        k = {"type": getattr(m, s.get("cls", "Base"))}
         if s.get("required"):
             k["required"] = True
         elif s.get("default"):
@@ -769,7 +783,7 @@ def oracle(case, deep=True):
             if target_kind(l) != "plain" or case["entry"] == "none":
                 continue
             ttype = next((a["type"] for a in lspec.get("args", []) if a["name"] == l["target"]), "int")
-            val = {"int": "3", "str": "v", "any": "3", "dict": "{}"}[ttype]
+            val = {"int": "3", "str": "v", "any": "3", "dict": "{}", "untyped": "3"}.get(ttype, "3")
             for form in (["--%s=%s" % (l["target"], val)], ["--" + l["target"], val]):
                 try:
                     got = p.parse_args(pre + form)
@@ -992,6 +1006,80 @@ def class_spec(rng, short=False, supply_target=0.4):
     if init:
         d["init_args"] = init
     return d
+
+
+def gen_replace_case(rng):
+    """links WITHOUT compute function from a namespace-valued source (group / class) to untyped, Any, Dict and class-typed
+    targets, with a mapping supplied for the target that has keys the source lacks / another class / extra dict_kwargs:
+    the target must be REPLACED by the source, not merged into what was supplied"""
+    m = gen_module()
+    mod = m.__name__
+    if rng.random() < 0.55:
+        groups = rng.sample(["g", "dc", "h"], rng.randint(1, 2))
+        spec = {"default_env": False, "groups": groups, "subclass": [], "subclass_list": [],
+                "args": [{"name": "a", "type": "int", "default": 1}, {"name": "w", "type": "any", "default": None},
+                         {"name": "raw", "type": "untyped", "default": None}, {"name": "m", "type": "dict", "default": {}}], "links": []}
+        for t in rng.sample(["w", "raw", "m"], rng.randint(1, 3)):
+            spec["links"].append({"sources": [rng.choice(groups)], "target": t, "fn": None, "single_str": rng.random() < 0.5})
+        extra = {"w": {"wd": rng.randint(1, 9), "p": 1, "x": 2}, "raw": {"zz": 1, "q": rng.randint(5, 9), "v1": 0}, "m": {"k": 3, "y": 8}}
+        supplied = {t: extra[t] for t in ("w", "raw", "m") if rng.random() < 0.75}
+        srcs = {}
+        for g in groups:
+            for f in GROUPS[g][2]:
+                if rng.random() < 0.5:
+                    srcs["%s.%s" % (g, f)] = rng.randint(10, 50)
+        entry = rng.choice(["args", "string", "object", "path"])
+        case = {"spec": spec, "entry": entry}
+        if entry == "args":
+            in_cfg = {k: v for k, v in srcs.items() if rng.random() < 0.5}
+            cfgopt = dict(supplied)
+            for k, v in in_cfg.items():
+                set_in(cfgopt, k, v)
+            rest = [(k, v) for k, v in srcs.items() if k not in in_cfg]
+            case["argv"] = ["--cfg=" + json.dumps(cfgopt)] + ["--%s=%d" % kv for kv in rest]
+            case["feed"] = [["config", k, v] for k, v in supplied.items()] + [["config", k, v] for k, v in in_cfg.items()] + \
+                [["argv", k, v] for k, v in rest]
+        else:
+            config = dict(supplied)
+            for k, v in srcs.items():
+                set_in(config, k, v)
+            case["config"] = config
+            chan = "object" if entry == "object" else "config"
+            case["feed"] = [[chan, k, v] for k, v in supplied.items()] + [[chan, k, v] for k, v in srcs.items()]
+        return case
+
+    def cspec(avoid=None):
+        cls = rng.choice([c for c in ("SubA", "SubB", "SubK") if c != avoid] if avoid and rng.random() < 0.7 else ["SubA", "SubB", "SubK"])
+        init = {"k": rng.randint(0, 9)}
+        if cls == "SubA" or rng.random() < 0.5:
+            init["dim"] = rng.randint(10, 20)
+        if cls == "SubB" and rng.random() < 0.5:
+            init["extra"] = "x%d" % rng.randint(0, 9)
+        d = {"class_path": "%s.%s" % (mod, cls), "init_args": init}
+        if cls == "SubK" and rng.random() < 0.6:
+            d["dict_kwargs"] = {"kk": rng.randint(1, 5)}
+        return d, cls
+
+    spec = {"default_env": False, "groups": [], "subclass_list": [], "args": [{"name": "a", "type": "int", "default": 1}],
+            "subclass": [{"name": "opt"}, {"name": "opt2"}, {"name": "holder", "cls": "Holder"}], "links": []}
+    for t in rng.sample(["opt2", "holder.init_args.c"], rng.randint(1, 2)):
+        spec["links"].append({"sources": ["opt"], "target": t, "fn": None, "single_str": rng.random() < 0.5})
+    src, cls = cspec()
+    values = {"opt": src}
+    if rng.random() < 0.8:
+        values["opt2"] = cspec(avoid=cls if rng.random() < 0.6 else None)[0]
+    if rng.random() < 0.85:
+        values["holder"] = {"class_path": "%s.Holder" % mod, "init_args": {"v": rng.randint(0, 5)}}
+        if rng.random() < 0.85:
+            values["holder"]["init_args"]["c"] = cspec(avoid=cls if rng.random() < 0.5 else None)[0]
+    entry = rng.choice(["args", "string", "object"])
+    case = {"spec": spec, "entry": entry}
+    if entry == "args":
+        in_cfg = {k: v for k, v in values.items() if k == "opt2" or rng.random() < 0.4}     # the option of a plain target is refused
+        case["argv"] = (["--cfg=" + json.dumps(in_cfg)] if in_cfg else []) + ["--%s=%s" % (k, json.dumps(v)) for k, v in values.items() if k not in in_cfg]
+    else:
+        case["config"] = values
+    return case
 
 
 def set_in(d, key, val):
@@ -1559,6 +1647,13 @@ def describe(ctx, case, real):
     ctx.hist("outcome", real["res"][0] if real["res"][0] == "ok" else "err:" + real["res"][1])
     ctx.hist("links_requested", len(ls.get("links", [])))
     ctx.hist("parser", "subcommand" if spec.get("sub") else "flat" if is_flat(spec) else "subclass")
+    for l in ls.get("links", []):
+        if not l.get("fn") and l["sources"] and (l["sources"][0] in GROUPS or l["sources"][0] in SUBCLASS_ARGS):
+            tt = next((a["type"] for a in ls.get("args", []) if a["name"] == l["target"]), "class")
+            ctx.hist("namespace_valued_identity_link_to", tt)
+            sup = case.get("config") or {}
+            if l["target"].split(".")[0] in json.dumps(case.get("argv") or "") or l["target"].split(".")[0] in sup:
+                ctx.hist("namespace_valued_identity_link_to", tt + " (value supplied for the target)")
     for l, r in zip(ls.get("links", []), real["links"]):
         ctx.hist("link_call", "accepted" if r["ok"] else "ValueError")
         if r["ok"]:
@@ -1615,6 +1710,8 @@ def run(ctx: Ctx):
     n_random = ctx.budget(650, 9000) * (2 if ctx.search_boost > 1 else 1)
     for _ in range(n_random):
         cases.append(gen_case(ctx.rng, gen_spec(ctx.rng)))
+    for _ in range(max(40, n_random // 10)):     # namespace-valued link values onto supplied mappings / other classes
+        cases.append(gen_replace_case(ctx.rng))
     n_generated = len(cases)
     exh = list(exhaustive_link_sets(3, False) if ctx.thorough else exhaustive_link_sets(2, True))
     cases.extend(exh)
